@@ -23,6 +23,8 @@ def cp_atoms(S, cpv, roles):
 
 def run(rep):
     prog = rep.prog
+    from .c15 import wire_group_membership
+    wire_group_membership(rep)
     rep.rule("cp-exact", "CommitmentProof::verify_knowledge_of_opening accepts iff bfr*h + <gs,rs> == T + c*C")
     rep.rule("srp-exact", "SignatureRequestProof::verify_knowledge_of_opening returns Some iff R_cp under (g1, Y1..YN) of the argument key, and the payload is the proof's commitment C")
     rep.rule("sp-exact", "SignatureProof::verify_knowledge_of_signature accepts iff sigma1' != 1 and R_cp under (g2, Y~) and e(sigma1', X~ + C) e(sigma2', -g~) = 1")
